@@ -27,7 +27,7 @@ RULE = ("1-4 inputs (sometimes 0) of intervals drawn from touching/nested/chaine
         "of up to 5 intervals on a 6-point line over 2 inputs (batched). A case is non-trivial when at least "
         "two groups are emitted or an out-of-order report is produced, with >= 3 records; distinct by hash.")
 ASSUMPTIONS = [
-    "records are truthy (a MafRecord with zero columns is false and blocks its input; modelled and compared, but outside the theorems' hypotheses)",
+    "records are truthy (a MafRecord with zero columns - a malformed line under Silent/Lenient - is false: the iterator treats it as exhaustion and silently drops the rest of that input; modelled, compared and shown as Example demo_false_record_ends_its_input, but outside the theorems' hypotheses)",
     "intervals have start <= end (with start > end the real code emits all-empty groups for ever; modelled, compared, outside the property's quantifier)",
     "chromosome is text, barcodes are text or missing (None), start/end are integers of any size",
     "when a contig list is supplied every chromosome of the inputs occurs in it (otherwise ValueError, modelled and compared)",
